@@ -18,6 +18,7 @@ from ..model import Program, walk_own, is_self_attr
 from ..report import AnalysisError
 from .. import locsets
 from . import common
+from ..model import key_in
 
 MESH = common.MESH
 
@@ -37,7 +38,7 @@ class CurvEx(Extractor):
     def choose(self, test, env):
         t = self.text(test)
         for key, val in self.seeds.items():
-            if key in t:
+            if key_in(key, t):
                 neg = isinstance(test, ast.UnaryOp) and isinstance(test.op, ast.Not)
                 return (not val) if neg else val
         return super().choose(test, env)
